@@ -1,17 +1,33 @@
 package main
 
-// The fact tables. One group = one generated Lean file lean/Karp/Gen/<Group>.lean.
-// Add facts here; keep each group small so that a change rebuilds only what depends on it.
+// Fact tables are registered per property in facts_cNN.go files (one file per property so that
+// they can be edited independently). One group = one generated Lean file lean/Karp/Gen/<Group>.lean;
+// keep each group small so that a change rebuilds only what depends on it.
 
-var factPackages = []string{
-	"sigs.k8s.io/karpenter/pkg/state/nodepoolhealth",
+var factPackages []string
+
+var factEmitters []func(g *gen)
+
+// register adds the packages (paths relative to the module, e.g. "pkg/state/nodepoolhealth") that must be
+// loaded and the function that emits the facts.
+func register(pkgs []string, emit func(g *gen)) {
+	for _, p := range pkgs {
+		full := "sigs.k8s.io/karpenter/" + p
+		dup := false
+		for _, q := range factPackages {
+			if q == full {
+				dup = true
+			}
+		}
+		if !dup {
+			factPackages = append(factPackages, full)
+		}
+	}
+	factEmitters = append(factEmitters, emit)
 }
 
 func emitFacts(g *gen) {
-	// ---- C20: registration health window ----
-	g.natConst("Health", "pkg/state/nodepoolhealth", "BufferSize", "bufferSize")
-	g.ratioConst("Health", "pkg/state/nodepoolhealth", "ThresholdFalse", "thresholdFalse")
-	g.natConst("Health", "pkg/state/nodepoolhealth", "StatusUnknown", "statusUnknown")
-	g.natConst("Health", "pkg/state/nodepoolhealth", "StatusHealthy", "statusHealthy")
-	g.natConst("Health", "pkg/state/nodepoolhealth", "StatusUnhealthy", "statusUnhealthy")
+	for _, e := range factEmitters {
+		e(g)
+	}
 }
